@@ -19,7 +19,9 @@ Fixpoint pauli_string (ps : list pauli) : mat :=
 
 Inductive tbop :=
 | TG (o : qop)        (* unitary gate *)
-| TMeas (q : nat)     (* measure wire q in the computational basis; the result is the returned value m *)
+| TMeas (q : nat) (keep : bool)
+                      (* measure wire q in the computational basis; the result is the returned value m;
+                         keep = measured in place (qubit stays allocated), otherwise the qubit is freed *)
 | TFlip.              (* m := (m + 1) mod 2 *)
 
 Record pmrow := mkPm {
@@ -47,7 +49,7 @@ Fixpoint pm_run (n : nat) (b : bool) (ops : list tbop) (U : mat) (nmeas : nat) (
       | Some (ws, G) => if embed_ok n ws G then pm_run n b ops' (mmul (embed n ws G) U) nmeas flip else None
       | None => None
       end
-  | TMeas q :: ops' =>
+  | TMeas q _ :: ops' =>
       if Nat.ltb q n then pm_run n b ops' (mmul (embed n [q] (proj b)) U) (S nmeas) flip else None
   | TFlip :: ops' =>
       match nmeas with
@@ -78,10 +80,13 @@ Definition pm_expected (r : pmrow) (m : bool) : mat :=
 
 Definition mzero (n : nat) : mat := repeat (repeat kzero n) n.
 
-(* for a measurement on the ancilla the measured wire must be the ancilla *)
+(* the measured wire is the ancilla when there is one, and then it is NOT kept
+   (measured and freed: after the call only the data qubits are allocated); a data
+   qubit is measured in place *)
 Definition pm_meas_wire_ok (r : pmrow) : bool :=
   forallb (fun o => match o with
-                    | TMeas q => if pm_anc r then Nat.eqb q (pm_ndata r) else Nat.ltb q (pm_ndata r)
+                    | TMeas q keep => if pm_anc r then Nat.eqb q (pm_ndata r) && negb keep
+                                      else Nat.ltb q (pm_ndata r) && keep
                     | _ => true end) (pm_ops r).
 
 Definition pm_row_ok (r : pmrow) : bool :=
